@@ -19,21 +19,31 @@ float    nondet_float(void) { return 1.0f; }
 }
 #include CONT_API
 int64_t last_now, cfg_ttl = 100, cfg_tick = 5;
-int main()
+// one phase of EV evictions; mode 0: plain stream of new keys; mode 1: before every eviction one resident is erased and
+// the free slot refilled with a new key (the cache passes through "not full" between evictions, which is where an engine
+// that is re-seeded or otherwise reset on the way back to "full" repeats itself); mode 2: as 1 but the erased resident
+// rotates through the positions
+static bool phase(int mode, uint64_t& next)
 {
     const int EV = 4000;
     long      cnt[HCAP] = {0};
     C         c(HCAP);
-    for (uint64_t k = 0; k < HCAP; ++k) c.insert(k, k);
-    uint64_t next = HCAP;
-    bool     bad  = false;
-    // survival: number of consecutive evictions each resident key has lived through
-    uint64_t rk[HCAP];
-    long     surv[HCAP];
-    long     max_surv = 0;
-    for (int p = 0; p < HCAP; ++p) { rk[p] = (uint64_t)p; surv[p] = 0; }
+    for (uint64_t k = 0; k < HCAP; ++k) c.insert(next + k, k);
+    next += HCAP;
+    bool     bad = false;
+    long     max_surv = 0, streak = 0;
+    uint64_t streak_key = ~0ull;
     for (int i = 0; i < EV; ++i)
     {
+        if (mode != 0 && HCAP > 1)
+        {
+            Abs cur;
+            alpha_real(c, cur);
+            const size_t victim = mode == 1 ? 0 : (size_t)i % cur.n;
+            c.erase(cur.k[victim]);
+            c.insert(next, next);
+            ++next;
+        }
         Abs pre, post;
         alpha_real(c, pre);
         c.insert(next, next);
@@ -41,25 +51,34 @@ int main()
         size_t gone = 0, ngone = 0;
         for (size_t p = 0; p < pre.n; ++p)
             if (a_idx(post, pre.k[p]) == NPOS) { gone = p; ++ngone; }
-        if (ngone != 1 || a_idx(post, next) == NPOS || post.n != HCAP) { printf("BAD-EVICTION at %d: %zu prior residents removed\n", i, ngone); bad = true; break; }
+        if (ngone != 1 || a_idx(post, next) == NPOS || post.n != HCAP) { printf("BAD-EVICTION (mode %d) at %d: %zu prior residents removed\n", mode, i, ngone); return true; }
         cnt[gone]++;
-        for (int p = 0; p < HCAP; ++p)
-        {
-            if (rk[p] == pre.k[gone]) { rk[p] = next; surv[p] = 0; }
-            else { surv[p]++; if (surv[p] > max_surv) max_surv = surv[p]; }
-        }
         ++next;
+        // survival of single entries (mode 0 only: explicit erases end lifetimes otherwise)
+        if (mode == 0)
+        {
+            bool alive = streak_key != ~0ull && a_idx(post, streak_key) != NPOS;
+            if (alive) { ++streak; if (streak > max_surv) max_surv = streak; }
+            else { streak_key = post.k[0]; streak = 0; }
+        }
     }
-    printf("victim open-list-position histogram over %d evictions at capacity %d:", EV, HCAP);
+    printf("mode %d: victim position histogram over %d evictions at capacity %d:", mode, EV, HCAP);
     for (int p = 0; p < HCAP; ++p) printf(" %ld", cnt[p]);
-    printf("; longest run of evictions survived by one entry: %ld\n", max_surv);
+    printf("; longest observed survival run: %ld\n", max_surv);
     for (int p = 0; p < HCAP; ++p)
     {
-        if (HCAP > 1 && cnt[p] == 0) { printf("IMMUNE position %d was never chosen\n", p); bad = true; }
-        if (HCAP > 1 && cnt[p] == EV) { printf("FIXED position %d was always chosen\n", p); bad = true; }
+        if (HCAP > 1 && cnt[p] == 0) { printf("IMMUNE position %d was never chosen (mode %d)\n", p, mode); bad = true; }
+        if (HCAP > 1 && cnt[p] == EV) { printf("FIXED position %d was always chosen (mode %d)\n", p, mode); bad = true; }
     }
     // with a uniform choice among HCAP <= 4 residents an entry survives 300 consecutive evictions with probability < 1e-37
-    if (HCAP > 1 && HCAP <= 4 && max_surv >= 300) { printf("IMMUNE an entry survived %ld consecutive evictions\n", max_surv); bad = true; }
+    if (mode == 0 && HCAP > 1 && HCAP <= 4 && max_surv >= 300) { printf("IMMUNE an entry survived %ld consecutive evictions\n", max_surv); bad = true; }
+    return bad;
+}
+int main()
+{
+    uint64_t next = 1000;
+    bool     bad  = false;
+    for (int mode = 0; mode < 3; ++mode) bad = phase(mode, next) || bad;
     printf(bad ? "RR-SPREAD-FAIL\n" : "RR-SPREAD-OK\n");
     return bad ? 1 : 0;
 }
